@@ -40,6 +40,10 @@ def run_one(sid, also, tier):
     d = os.path.join(SEEDED, sid)
     meta = json.load(open(os.path.join(d, "meta.json")))
     prop = meta["property"]
+    import fcntl
+    lock = open("/var/lock/imdl-verif-repo.lock", "w")
+    fcntl.flock(lock, fcntl.LOCK_EX)   # no check may be running while /repo is patched (released when this function returns)
+    os.environ["VERIF_REPO_LOCK_HELD"] = "1"
     if not repo_clean():
         print("/repo is not clean; refusing"); sys.exit(2)
     rc, out = sh(["git", "-C", "/repo", "apply", os.path.join(d, "patch.diff")])
